@@ -726,6 +726,9 @@ def check_kspec(m, envs, spec, label=None, extra_F=None):
         K = k_build(env, m, root, lambda c: spec_chain_real(env, ops, c))
     except (ValueError, TypeError):      # sympy refuses the arguments (Max / Min of a Constant: 'not comparable')
         return [], 0, 'skipped:refused-by-sympy'
+    except Exception as ex:              # the derivative constructors themselves fail (RecursionError, ...): a finding, not a crash
+        tag = 'fixed:' + label if label else json.dumps(root, sort_keys=True)[:300]
+        return [('multiarg-build-raises:%s' % tag, 'building the kernel %s raised %s' % (tag, type(ex).__name__), 'build')], 1, 'build-raises'
     chs = k_chains(root)
     heads = k_heads(root)
     funs = []
@@ -879,7 +882,13 @@ def oracle(ctx, factor, seeds):
         pass
     for i in range(nk):
         dim = rng.choice([1, 2, 2, 3, 3])
-        kernels.append((dim, Gen(rng, envs[dim], m, multi=True).kernel()))
+        try:
+            kernels.append((dim, Gen(rng, envs[dim], m, multi=True).kernel()))
+        except (RecursionError, AttributeError, KeyError, IndexError) as ex:
+            # the derivative constructors themselves fail while the kernel is assembled: a finding, not a crash
+            o.evaluations += 1
+            o.fail('kernel-build-raises:%d:%d' % (dim, i), 'assembling random kernel no. %d (dim %d) from dx/dy/dz/dx1.. raised %s' % (i, dim, type(ex).__name__),
+                   op='build', dim=dim)
     for dim, K in kernels:
         chains = all_chains(K, m)
         if any(not is_fun_atom(a, m) for a, _, _ in chains):
